@@ -409,7 +409,7 @@ fn flat_program(kind: usize, n: usize) -> String {
 }
 
 fn flat_cases(thorough: bool) -> Vec<(usize, usize)> {
-    let sizes: &[usize] = if thorough { &[1000, 3000, 6000, 10_000, 20_000] } else { &[1000, 3000, 6000] };
+    let sizes: &[usize] = if thorough { &[1000, 3000, 6000, 10_000] } else { &[1000, 3000, 6000] };
     let mut v = Vec::new();
     for kind in 0..3 {
         for n in sizes {
@@ -500,7 +500,7 @@ impl Engine for C12 {
             ));
         }
         v.push(Phase::new(
-            "nesting families, depths 1..=200, each family one case; flat programs of 1000..6000 (thorough 20000) statements in three shapes",
+            "nesting families, depths 1..=200, each family one case; flat programs of 1000..6000 (thorough 10000) statements in three shapes",
             json!({"space": "families", "thorough": thorough}),
         ));
         v
